@@ -148,6 +148,16 @@ def ref_map(spec, inputs):
     return env, calls
 
 
+def swapped(spec, k):
+    """the same pipeline with function k's two parameters (and its MapSpec inputs) in the opposite order"""
+    s = copy.deepcopy(spec)
+    fn = s["funcs"][k]
+    fn["params"] = list(reversed(fn["params"]))
+    if fn["ms"] is not None:
+        fn["ms"] = {p: fn["ms"][p] for p in fn["params"] if p in fn["ms"]}
+    return s
+
+
 def output_axes(spec) -> dict:
     """array name -> tuple of axis names (roots and outputs)"""
     ax = {r: tuple(a) for r, a in spec["roots"].items()}
